@@ -313,7 +313,9 @@ def check_auth(request, response, realm, users, encrypt=None):
         # make sure the provided credentials are correctly set
         ah = _httpauth.parseAuthorization(request.headers.get('Authorization'))
         if ah is None:
-            return httperror(request, response, 400)
+            # malformed credentials are no credentials (an error object
+            # would be true for the callers' `if check_auth(...)`)
+            return False
 
         if not encrypt:
             encrypt = _httpauth.DIGEST_AUTH_ENCODERS[_httpauth.MD5]
